@@ -1359,8 +1359,17 @@ func (e *vfRouteExec) openSource(s *vfSrc) {
 	inc := len(s.incoming)
 	s.incoming = append(s.incoming, ss)
 	ss.onSend = func(m *adminservice.StreamWorkflowReplicationMessagesResponse) error {
-		if msgs := m.GetMessages(); msgs != nil && len(msgs.ReplicationTasks) > 0 {
+		msgs := m.GetMessages()
+		if msgs != nil && len(msgs.ReplicationTasks) > 0 {
 			e.violate("C02", "task-sent-to-source-cluster", fmt.Sprintf("source shard %d received tasks %v", s.idx, msgs))
+		}
+		if msgs != nil && !ss.broken && !ss.returned {
+			// the shard that initiated this stream is a replication receiver too (for the opposite direction): whatever
+			// arrives on its stream it processes and acknowledges, as any Temporal shard does. Nothing replicates in that
+			// direction here, so anything that arrives was sent to the wrong cluster - and its acknowledgement comes back.
+			e.logf("S%d#%d (stream initiated by the source shard) receives a message with high=%d and acknowledges it", s.idx, inc, msgs.ExclusiveHighWatermark)
+			ss.deliver(vfItem{req: &adminservice.StreamWorkflowReplicationMessagesRequest{
+				Attributes: &adminservice.StreamWorkflowReplicationMessagesRequest_SyncReplicationState{SyncReplicationState: &replicationv1.SyncReplicationState{InclusiveLowWatermark: msgs.ExclusiveHighWatermark}}}})
 		}
 		return nil
 	}
